@@ -53,7 +53,7 @@ def check(prog, run):
             if p_[-1] == b"stco":
                 def grab(x):
                     if isinstance(x, tuple):
-                        if len(x) == 3 and x[0] == "acc":
+                        if len(x) == 3 and x[0] == "acc" and str(x[2]).startswith("P"):
                             offs.add(x[1])
                         for y in x:
                             grab(y)
